@@ -329,6 +329,9 @@ func cmdCheck(args []string) int {
 	}
 	if *only == "" {
 		for _, want := range lock[*prop] {
+			if incidentalObligation(want) {
+				continue // frame / lock-stability / safety obligations depend on temporaries; their set may change harmlessly
+			}
 			if _, ok := byName[want]; !ok {
 				covered := false
 				for _, ge := range genErrs {
@@ -497,7 +500,7 @@ func pinLock(prop string, obls []*Obligation) {
 	}
 	var ns []string
 	for _, o := range obls {
-		if !o.MustFail {
+		if !o.MustFail && !incidentalObligation(o.Name) {
 			ns = append(ns, o.Name)
 		}
 	}
